@@ -12,12 +12,10 @@ def dry_run(root_rm, request, context=None):
     ctx = context if context is not None else {}
     while True:
         if i >= len(request):
-            return {"refused": True, "why": "malformed", "depth": i, "validator": None}
+            # the path ends at a manager: nothing is addressed here
+            return {"refused": True, "why": "key-miss", "depth": i, "validator": None}
         key = request[i]
-        try:
-            present = key in cur.request_types
-        except TypeError:
-            present = False
+        present = isinstance(key, (str, int)) and key in cur.request_types
         if not present:
             return {"refused": True, "why": "key-miss", "depth": i, "validator": None}
         rt = cur.request_types[key]
